@@ -15,8 +15,10 @@ package harness
 
 import (
 	"encoding/hex"
+	"encoding/json"
 	"fmt"
 	"os"
+	"runtime/debug"
 	"sort"
 	"strings"
 	"testing"
@@ -44,6 +46,7 @@ import (
 	tmproto "github.com/cometbft/cometbft/proto/tendermint/types"
 	simtestutil "github.com/cosmos/cosmos-sdk/testutil/sims"
 	sdk "github.com/cosmos/cosmos-sdk/types"
+	"github.com/cosmos/cosmos-sdk/types/module"
 )
 
 // store keys of the DeFi modules (module directory -> KV store key)
@@ -55,6 +58,34 @@ var c20Stores = [][2]string{
 }
 
 type c20KV struct{ k, v []byte }
+
+// module directory of a module (= store) name; other modules keep their name
+func c20ModuleDir(name string) string {
+	for _, s := range c20Stores {
+		if s[1] == name {
+			return s[0]
+		}
+	}
+	return name
+}
+
+// c20TryStack runs f; a panic is an outcome, attributed to the first comdex module (x/<dir>/) on the panicking stack.
+func c20TryStack(f func()) (panicked bool, msg, module string) {
+	defer func() {
+		if r := recover(); r != nil {
+			panicked, msg, module = true, fmt.Sprint(r), "app"
+			st := string(debug.Stack())
+			if i := strings.Index(st, "comdex/x/"); i >= 0 {
+				rest := st[i+len("comdex/x/"):]
+				if j := strings.IndexAny(rest, "/."); j > 0 {
+					module = rest[:j]
+				}
+			}
+		}
+	}()
+	f()
+	return false, "", ""
+}
 
 func c20Dump(app *chain.App, ctx sdk.Context, storeKey string) []c20KV {
 	st := ctx.KVStore(app.GetKey(storeKey))
@@ -203,7 +234,7 @@ func (w *c20World) extPair(appID, pairID uint64, name string, stable bool, drawD
 
 // ---- phase 1: assets, prices, lending, vaults (incl. closed + stable-mint), second-generation liquidation + auctions ----
 
-func (w *c20World) buildCore() {
+func (w *c20World) buildBase() {
 	a1 := w.asset("ASSETONE", "uasset1", 2000000)
 	a2 := w.asset("ASSETTWO", "uasset2", 2000000)
 	a3 := w.asset("ASSETTHREE", "uasset3", 1000000)
@@ -252,14 +283,22 @@ func (w *c20World) buildCore() {
 			w.fund(u, d, 1000000000000000)
 		}
 	}
+}
+
+// ---- phase 1b: positions (after the liquidity farms of phase 3a have matured) -----------------------------------------------
+
+func (w *c20World) buildPositions() {
+	a1, a2, a3, a4 := uint64(1), uint64(2), uint64(3), uint64(4)
 	u1, u2, u3, u4 := w.u[0].String(), w.u[1].String(), w.u[2].String(), w.u[3].String()
 	coin := func(d string, n int64) sdk.Coin { return sdk.NewCoin(d, sdk.NewInt(n)) }
-	// lending: positions 1-4 stay, position 5 and its borrow are closed again (the id counters then exceed every live id)
+	// lending: positions 1-5 stay (user 1 lends in two pools and borrows on two pairs), position 6 and its borrow are closed
+	// again (the id counters then exceed every live id)
 	w.msg("lend 1", lendtypes.NewMsgLend(u1, a1, coin("uasset1", 3000000000), 1, 3))
 	w.msg("lend 2", lendtypes.NewMsgLend(u1, a2, coin("uasset2", 10000000000), 1, 3))
 	w.msg("lend 3", lendtypes.NewMsgLend(u2, a1, coin("uasset1", 10000000000), 1, 3))
 	w.msg("lend 4", lendtypes.NewMsgLend(u4, a1, coin("uasset1", 4000000000), 1, 3))
-	w.msg("lend 5", lendtypes.NewMsgLend(u3, a1, coin("uasset1", 5000000000), 1, 3))
+	w.msg("lend 5 (pool 2)", lendtypes.NewMsgLend(u1, a4, coin("uasset4", 2000000000), 2, 3))
+	w.msg("lend 6", lendtypes.NewMsgLend(u3, a1, coin("uasset1", 5000000000), 1, 3))
 	w.msg("fund mod 1/1", lendtypes.NewMsgFundModuleAccounts(1, a1, u1, coin("uasset1", 10000000000)))
 	w.msg("fund mod 1/2", lendtypes.NewMsgFundModuleAccounts(1, a2, u1, coin("uasset2", 10000000000)))
 	w.msg("fund mod 1/3", lendtypes.NewMsgFundModuleAccounts(1, a3, u1, coin("uasset3", 120000000)))
@@ -269,9 +308,15 @@ func (w *c20World) buildCore() {
 	w.msg("borrow 1", lendtypes.NewMsgBorrow(u1, 1, 1, false, coin("ucasset1", 100000000), coin("uasset2", 70000000)))
 	w.msg("borrow 2", lendtypes.NewMsgBorrow(u2, 3, 1, false, coin("ucasset1", 1000000000), coin("uasset2", 700000000)))
 	w.msg("borrow 3", lendtypes.NewMsgBorrow(u4, 4, 1, false, coin("ucasset1", 500000000), coin("uasset2", 350000000)))
-	w.msg("borrow 4", lendtypes.NewMsgBorrow(u3, 5, 1, false, coin("ucasset1", 1000000000), coin("uasset2", 100000000)))
-	w.msg("close borrow 4", lendtypes.NewMsgCloseBorrow(u3, 4))
-	w.msg("close lend 5", lendtypes.NewMsgCloseLend(u3, 5))
+	for _, lp := range w.app.LendKeeper.GetLendPairs(w.ctx) {
+		if lp.AssetIn == a2 && lp.AssetOut == a1 && !lp.IsInterPool {
+			w.msg("borrow 4 (second pair)", lendtypes.NewMsgBorrow(u1, 2, lp.Id, false, coin("ucasset2", 100000000), coin("uasset1", 1000000)))
+			break
+		}
+	}
+	w.msg("borrow 5", lendtypes.NewMsgBorrow(u3, 6, 1, false, coin("ucasset1", 1000000000), coin("uasset2", 100000000)))
+	w.msg("close borrow 5", lendtypes.NewMsgCloseBorrow(u3, 5))
+	w.msg("close lend 6", lendtypes.NewMsgCloseLend(u3, 6))
 
 	// vaults of app 2 (harbor): ids 1,2 will be liquidated, 3 is safe, 4 is closed by its owner
 	w.step("pair 1", func() error {
@@ -326,6 +371,7 @@ func (w *c20World) buildCore() {
 	w.msg("market bid partial", auctionsV2types.NewMsgPlaceMarketBid(u2, 1, coin("uasset3", 100000)))
 	w.msg("limit bid", auctionsV2types.NewMsgDepositLimitBid(u3, a2, a3, sdk.NewInt(2), coin("uasset3", 1000000)))
 	w.msg("limit bid 2", auctionsV2types.NewMsgDepositLimitBid(u4, a2, a3, sdk.NewInt(3), coin("uasset3", 2000000)))
+	w.msg("limit bid 3 (same bidder, other premium)", auctionsV2types.NewMsgDepositLimitBid(u3, a2, a3, sdk.NewInt(5), coin("uasset3", 1500000)))
 	w.msg("app reserve funds", liqV2types.NewMsgAppReserveFundsRequest(u1, 2, a3, coin("uasset3", 5000000)))
 	// borrow 1 is liquidated through the second generation, borrow 2 and vaults 5,6 through the first generation: its
 	// sweeps no longer run in BeginBlock (x/liquidation/module.go, x/auction/module.go) but its user messages are still routed
@@ -376,8 +422,21 @@ func (w *c20World) buildLocker() {
 	w.msg("locker 1", lockertypes.NewMsgCreateLockerRequest(u1, sdk.NewInt(5000000), 3, 2))
 	w.msg("locker 2", lockertypes.NewMsgCreateLockerRequest(u2, sdk.NewInt(3000000), 3, 2))
 	w.msg("locker 3", lockertypes.NewMsgCreateLockerRequest(w.u[2].String(), sdk.NewInt(2000000), 3, 2))
+	// the same depositor with a locker in a second asset of the same app
+	w.step("collector lookup 2/1", func() error {
+		return w.app.CollectorKeeper.WasmSetCollectorLookupTable(w.ctx, &bindings.MsgSetCollectorLookupTable{AppID: 2, CollectorAssetID: 1,
+			SecondaryAssetID: hbr, SurplusThreshold: sdk.NewInt(10000000), DebtThreshold: sdk.NewInt(5000000), LockerSavingRate: c20Dec("0.05"),
+			LotSize: sdk.NewInt(2000000), BidFactor: c20Dec("0.01"), DebtLotSize: sdk.NewInt(2000000)})
+	})
+	w.step("locker whitelist asset 1", func() error {
+		_, err := w.app.LockerKeeper.AddWhiteListedAsset(w.ctx, &lockertypes.MsgAddWhiteListedAssetRequest{From: u1, AppId: 2, AssetId: 1})
+		return err
+	})
 	w.msg("locker 1 deposit", lockertypes.NewMsgDepositAssetRequest(u1, 1, sdk.NewInt(1000000), 3, 2))
 	w.msg("close locker 3", lockertypes.NewMsgCloseLockerRequest(w.u[2].String(), 2, 3, 3))
+	w.msg("locker 4 (asset 1)", lockertypes.NewMsgCreateLockerRequest(u1, sdk.NewInt(4000000), 1, 2))
+	w.msg("locker 5", lockertypes.NewMsgCreateLockerRequest(w.u[3].String(), sdk.NewInt(1000000), 1, 2))
+	w.msg("close locker 5", lockertypes.NewMsgCloseLockerRequest(w.u[3].String(), 2, 1, 5))
 	w.msg("ext rewards locker", rewardstypes.NewMsgActivateExternalRewardsLockers(2, 3, coin("ucmdx", 3000000), 10, 1, w.u[0]))
 }
 
@@ -387,8 +446,16 @@ func (w *c20World) buildLiquidity() {
 	coins := func(s string) sdk.Coins { c, _ := sdk.ParseCoinsNormalized(s); return c }
 	w.msg("liq pair", liquiditytypes.NewMsgCreatePair(1, w.u[0], "uasset1", "uasset2"))
 	w.msg("liq pair 2", liquiditytypes.NewMsgCreatePair(1, w.u[0], "uasset3", "uasset4"))
+	w.msg("liq pair 3 (no pool)", liquiditytypes.NewMsgCreatePair(1, w.u[0], "uasset1", "uasset3")) // pair and pool counters differ
 	w.msg("liq pool", liquiditytypes.NewMsgCreatePool(1, w.u[0], 1, coins("1000000000000uasset1,1000000000000uasset2")))
+	w.msg("liq pool 2", liquiditytypes.NewMsgCreatePool(1, w.u[0], 2, coins("1000000000000uasset3,1000000000000uasset4")))
+	// the same farmer in two pools of one app (these positions are active by the time of the export), a second farmer in one
 	w.msg("liq farm u1", liquiditytypes.NewMsgFarm(1, 1, w.u[0], sdk.NewCoin("pool1-1", sdk.NewInt(1000000000))))
+	w.msg("liq farm u1 pool 2", liquiditytypes.NewMsgFarm(1, 2, w.u[0], sdk.NewCoin("pool1-2", sdk.NewInt(700000000))))
+	w.step("liq transfer pool coin", func() error {
+		return w.app.BankKeeper.SendCoins(w.ctx, w.u[0], w.u[1], sdk.NewCoins(sdk.NewCoin("pool1-1", sdk.NewInt(50000000))))
+	})
+	w.msg("liq farm u2", liquiditytypes.NewMsgFarm(1, 1, w.u[1], sdk.NewCoin("pool1-1", sdk.NewInt(30000000))))
 	w.msg("ext rewards lend", rewardstypes.NewMsgActivateExternalRewardsLend(3, 1, []uint64{1, 2}, 1, 1, sdk.NewCoin("uasset4", sdk.NewInt(5000000)), 1, 10, 1, w.u[0]))
 	w.msg("gauge", &rewardstypes.MsgCreateGauge{From: w.u[0].String(), AppId: 1, StartTime: w.ctx.BlockTime().Add(time.Hour), GaugeTypeId: 1,
 		TriggerDuration: 24 * time.Hour, DepositAmount: sdk.NewCoin("ucmdx", sdk.NewInt(10000000)), TotalTriggers: 5,
@@ -406,7 +473,9 @@ func (w *c20World) buildLiquidityPending() {
 		"uasset1", c20Dec("0.95"), sdk.NewInt(1000000), 10*time.Hour))
 	w.msg("liq mm order", liquiditytypes.NewMsgMMOrder(1, w.u[1], 1, c20Dec("1.10"), c20Dec("1.06"), sdk.NewInt(3000000), c20Dec("0.94"), c20Dec("0.90"),
 		sdk.NewInt(3000000), 10*time.Hour))
-	w.msg("liq farm u2", liquiditytypes.NewMsgFarm(1, 1, w.u[0], sdk.NewCoin("pool1-1", sdk.NewInt(500000))))
+	// … and the same farmer queued again in both pools
+	w.msg("liq farm again", liquiditytypes.NewMsgFarm(1, 1, w.u[0], sdk.NewCoin("pool1-1", sdk.NewInt(500000))))
+	w.msg("liq farm again pool 2", liquiditytypes.NewMsgFarm(1, 2, w.u[0], sdk.NewCoin("pool1-2", sdk.NewInt(300000))))
 	// the most recently created vault is closed again: the vault id counter is ahead of every live vault
 	w.msg("vault last", vaulttypes.NewMsgCreateRequest(w.u[2], 2, 1, sdk.NewInt(300000000), sdk.NewInt(1000000)))
 	w.msg("close vault last", &vaulttypes.MsgCloseRequest{From: w.u[2].String(), AppId: 2, ExtendedPairVaultId: 1, UserVaultId: w.app.VaultKeeper.GetIDForVault(w.ctx)})
@@ -867,13 +936,15 @@ func c20RunCase(t *testing.T, tr *Trace, cs c20Case) {
 	}
 	tr.Line("gen.begin", cs.name, u(seed()))
 	w.buildOracle()
-	w.buildCore()
-	w.buildLocker()
+	w.buildBase()
 	w.buildLiquidity()
+	w.nextBlock(25 * time.Hour) // block 3, a day later: the farming queue (24 h) matures at the end of this block
+	w.buildPositions()
+	w.buildLocker()
 	w.buildEsm()
-	w.nextBlock(6 * time.Second) // block 3: ESM price snapshot; bids on both auction generations
+	w.nextBlock(6 * time.Second) // block 4: ESM price snapshot; bids on both auction generations
 	w.v1Bids()
-	w.nextBlock(6 * time.Second) // block 4: ESM cool-off over
+	w.nextBlock(6 * time.Second) // block 5: ESM cool-off over
 	for i := 0; i <= cs.extraBlocks; i++ {
 		w.nextBlock(6 * time.Second)
 	}
@@ -895,25 +966,65 @@ func c20RunCase(t *testing.T, tr *Trace, cs c20Case) {
 		t.Fatal(err)
 	}
 	tr.Set("exported_bytes", len(exp.AppState))
+	// every module must accept (ValidateGenesis) and import (InitGenesis) what it exported itself; a refusal or panic of ANY
+	// module is reported under that module's name and ends the case (nothing can be compared on a chain that does not start)
+	var genesisMap map[string]json.RawMessage
+	if err := json.Unmarshal(exp.AppState, &genesisMap); err != nil {
+		t.Fatal(err)
+	}
+	enc := chain.MakeEncodingConfig()
+	refused := false
+	var names []string
+	for n := range genesisMap {
+		names = append(names, n)
+	}
+	sort.Strings(names)
+	for _, n := range names {
+		mb0, ok := chain.ModuleBasics[n]
+		if !ok {
+			continue
+		}
+		mb, ok := mb0.(module.HasGenesisBasics)
+		if !ok {
+			continue
+		}
+		var err error
+		pan, msg, _ := c20TryStack(func() { err = mb.ValidateGenesis(enc.Marshaler, enc.TxConfig, genesisMap[n]) })
+		if pan {
+			err = fmt.Errorf("panic: %s", msg)
+		}
+		if err != nil && c20ModuleDir(n) == n && n != "tokenmint" && n != "liquidationsV2" && n != "auctionsV2" {
+			// not a DeFi module (ibc's stand-alone ValidateGenesis dislikes the localhost connection id that InitChain accepts): noted
+			tr.Line("gen.note", "ValidateGenesis of non-DeFi module "+n+": "+strings.ReplaceAll(err.Error(), "\t", " "))
+		} else if err != nil {
+			tr.Line("gen.validate", c20ModuleDir(n), "err", strings.ReplaceAll(err.Error(), "\t", " "))
+			refused = true
+		} else {
+			tr.Count("validate:ok")
+		}
+	}
 	fresh := func() *chain.App {
 		b := chain.New(log.NewNopLogger(), dbm.NewMemDB(), nil, true, map[int64]bool{}, chain.DefaultNodeHome, 5, chain.MakeEncodingConfig(),
 			simtestutil.EmptyAppOptions{}, chain.GetWasmEnabledProposals(), chain.EmptyWasmOpts)
-		pan, msg := try(func() {
+		pan, msg, mod := c20TryStack(func() {
 			b.InitChain(abci.RequestInitChain{Validators: []abci.ValidatorUpdate{}, ConsensusParams: chain.DefaultConsensusParams,
 				AppStateBytes: exp.AppState, Time: now, InitialHeight: exp.Height})
 		})
 		if pan {
-			tr.Line("gen.import", "panic")
-			t.Logf("InitChain from exported genesis panicked: %s", msg)
+			tr.Line("gen.import", "panic", mod, strings.ReplaceAll(msg, "\t", " "))
 			return nil
 		}
 		return b
 	}
 	b := fresh()
-	if b == nil {
+	if b == nil || refused {
+		if b != nil {
+			tr.Line("gen.note", "InitChain went through although ValidateGenesis refused the exported state")
+		}
+		tr.Count("import:refused")
 		return
 	}
-	tr.Line("gen.import", "ok")
+	tr.Line("gen.import", "ok", "-", "-")
 	hdr := tmproto.Header{Height: exp.Height, Time: now.Add(6 * time.Second)}
 	// (i) store by store, before anything else runs (as in the ABCI flow InitChain is followed directly by BeginBlock)
 	ca := a.BaseApp.NewUncachedContext(false, hdr)
